@@ -49,8 +49,11 @@ func c15Doc(idx int) string {
  "post":{"requestBody":{"required":true,"content":{"application/json":{"schema":{"$ref":"#/components/schemas/Item"}}}},
          "responses":{"200":{"description":"ok"}}},
  "put":{"requestBody":{"required":true,"content":{"application/json":{"schema":{"$ref":"#/components/schemas/Dflt"}}}},
+         "responses":{"200":{"description":"ok"}}}},
+ "/secure":{"post":{"security":[{"key":[]}],
+         "requestBody":{"required":true,"content":{"application/json":{"schema":{"$ref":"#/components/schemas/Item"}}}},
          "responses":{"200":{"description":"ok"}}}}},
-"components":{"schemas":{
+"components":{"securitySchemes":{"key":{"type":"apiKey","in":"header","name":"X-Key"}},"schemas":{
  "Item":{"type":"object","required":["id"],"properties":{"id":{"type":"integer"},
    "tags":{"type":"array","uniqueItems":true,"items":{"type":"string","pattern":"^c%dp[a-z]*$"}}}},
  "Dflt":{"type":"object","properties":{"o":{"type":"object","default":{},"properties":{"z":{"type":"integer","default":3},
@@ -147,6 +150,24 @@ func c15Call(w *c15World, op string, v int, idx int) string {
 			return "reject"
 		}
 		return "ok"
+	case "vreq_secure_body":
+		// security requirement + body, as a server sees the request (no GetBody); the authentication callback reads the
+		// body (a signature check would); bodies of equal length, valid / invalid / valid
+		req := mkReq("POST", "/secure", []string{`{"id":11,"tags":[]}`, `{"id":"x","tags":[]}`, `{"id":22,"tags":[]}`}[v])
+		req.Header.Set("X-Key", "k")
+		route, pp, err := w.mux.FindRoute(req)
+		if err != nil {
+			return "noroute"
+		}
+		opts := &openapi3filter.Options{AuthenticationFunc: func(_ context.Context, in *openapi3filter.AuthenticationInput) error {
+			io.ReadAll(in.RequestValidationInput.Request.Body)
+			return nil
+		}}
+		if err := openapi3filter.ValidateRequest(context.Background(), &openapi3filter.RequestValidationInput{Request: req, PathParams: pp, Route: route, Options: opts}); err != nil {
+			return "reject"
+		}
+		b, _ := io.ReadAll(req.Body)
+		return "ok:" + string(b)
 	case "vreq_body_unique":
 		return validateReq(w.mux, mkReq("POST", "/items/5", []string{fmt.Sprintf(`{"id":1,"tags":["c%dpa","c%dpa"]}`, idx, idx), fmt.Sprintf(`{"id":2,"tags":["c%dpa","c%dpb"]}`, idx, idx)}[v%2]))
 	case "vreq_body_defaults":
